@@ -728,61 +728,69 @@ Proof.
 Qed.
 
 (* the part of initialize after the decision to accept it *)
-Definition init_body (p : program) (s : sim) (r : repl) : sim :=
+(* construct_model and what follows, from the state [s2] in which construct_model
+   starts.  A failing construct body aborts initialize (ResRaised). *)
+Definition init_tail (p : program) (r : repl) (s2 : sim) : sim * cres :=
+  let '(s3, failed) := exec_actions InConstruct s2 (body p 0) in
+  if failed then (set_ps PNotInit (set_rs RNotInit s3), ResRaised)
+  else
+    let s5 := set_ps PInit (set_rs RInit s3) in
+    (if r_warm r <? clock s5 then raise_flag s5
+     else let e := mkEv (r_warm r) 10 (nid s5) HWarm 0 in
+          set_nid (nid s5 + 1) (set_pend (ins e (pend s5)) s5), ResOk).
+
+Definition init_pre (s : sim) (r : repl) : sim :=
   let s0 := set_pend [] s in
   let s1 := match worker s0 with WNone => s0 | _ => do_cleanup s0 end in
-  let s2 := set_created [] (set_clock (r_start r) (set_rep (Some r) (set_worker WAlive s1))) in
-  let '(s3, failed) := exec_actions InConstruct s2 (body p 0) in
-  let s4 := if failed then raise_flag s3 else s3 in
-  let s5 := set_ps PInit (set_rs RInit s4) in
-  if r_warm r <? clock s5 then raise_flag s5
-  else let e := mkEv (r_warm r) 10 (nid s5) HWarm 0 in
-       set_nid (nid s5 + 1) (set_pend (ins e (pend s5)) s5).
+  set_created [] (set_clock (r_start r) (set_rep (Some r) (set_worker WAlive s1))).
+
+Definition init_body (p : program) (s : sim) (r : repl) : sim := fst (init_tail p r (init_pre s r)).
+Definition init_res (p : program) (s : sim) (r : repl) : cres := snd (init_tail p r (init_pre s r)).
 
 Lemma do_init_eq p s r :
-  do_init p s r = if running s then (s, ResRefused) else (init_body p s r, ResOk).
+  do_init p s r = if running s then (s, ResRefused) else (init_body p s r, init_res p s r).
 Proof.
-  unfold do_init, init_body. destruct (running s); auto.
-  destruct (exec_actions InConstruct _ (body p 0)) as [s3 failed]. reflexivity.
+  unfold do_init, init_body, init_res, init_tail, init_pre. destruct (running s); auto.
+  destruct (exec_actions InConstruct _ (body p 0)) as [s3 failed]. destruct failed; reflexivity.
+Qed.
+
+Lemma init_res_cases p s r : init_res p s r = ResOk \/ init_res p s r = ResRaised.
+Proof.
+  unfold init_res, init_tail. destruct (exec_actions InConstruct _ (body p 0)) as [s3 failed].
+  destruct failed; auto.
 Qed.
 
 Lemma init_tail_idsim p r s2 t2 :
   IdSimX X X' bs bt s2 t2 ->
-  IdSimX X X' bs bt
-    (let '(s3, failed) := exec_actions InConstruct s2 (body p 0) in
-     let s4 := if failed then raise_flag s3 else s3 in
-     let s5 := set_ps PInit (set_rs RInit s4) in
-     if r_warm r <? clock s5 then raise_flag s5
-     else let e := mkEv (r_warm r) 10 (nid s5) HWarm 0 in
-          set_nid (nid s5 + 1) (set_pend (ins e (pend s5)) s5))
-    (let '(s3, failed) := exec_actions InConstruct t2 (body p 0) in
-     let s4 := if failed then raise_flag s3 else s3 in
-     let s5 := set_ps PInit (set_rs RInit s4) in
-     if r_warm r <? clock s5 then raise_flag s5
-     else let e := mkEv (r_warm r) 10 (nid s5) HWarm 0 in
-          set_nid (nid s5 + 1) (set_pend (ins e (pend s5)) s5)).
+  IdSimX X X' bs bt (fst (init_tail p r s2)) (fst (init_tail p r t2))
+  /\ snd (init_tail p r t2) = snd (init_tail p r s2).
 Proof.
-  intros H2.
+  intros H2. unfold init_tail.
   destruct (exec_actions_idsim InConstruct (body p 0) _ _ H2) as [H3 E3].
   destruct (exec_actions InConstruct s2 (body p 0)) as [s3 fl].
   destruct (exec_actions InConstruct t2 (body p 0)) as [t3 fl']. cbn [fst snd] in *. subst fl'.
-  set (s4 := if fl then raise_flag s3 else s3). set (t4 := if fl then raise_flag t3 else t3).
-  assert (H4 : IdSimX X X' bs bt s4 t4) by (unfold s4, t4; destruct fl; auto using raise_flag_idsim).
-  assert (H5 : IdSimX X X' bs bt (set_ps PInit (set_rs RInit s4)) (set_ps PInit (set_rs RInit t4)))
+  destruct fl; cbn [fst snd]; [split; auto using set_ps_idsim, set_rs_idsim|]. split; auto.
+  assert (H5 : IdSimX X X' bs bt (set_ps PInit (set_rs RInit s3)) (set_ps PInit (set_rs RInit t3)))
     by auto using set_ps_idsim, set_rs_idsim.
-  cbv zeta. rewrite (idsim_clock _ _ H5).
-  destruct (r_warm r <? clock (set_ps PInit (set_rs RInit s4))); auto using raise_flag_idsim.
+  rewrite (idsim_clock _ _ H5).
+  destruct (r_warm r <? clock (set_ps PInit (set_rs RInit s3))); auto using raise_flag_idsim.
   apply warm_insert_idsim; auto.
 Qed.
 
-Lemma init_body_idsim p r s t :
-  IdSimX X X' bs bt s t -> IdSimX X X' bs bt (init_body p s r) (init_body p t r).
+Lemma init_pre_idsim_rel r s t :
+  IdSimX X X' bs bt s t -> IdSimX X X' bs bt (init_pre s r) (init_pre t r).
 Proof.
-  intros H. unfold init_body.
-  apply init_tail_idsim.
+  intros H. unfold init_pre.
   apply forget_created_idsim, set_clock_idsim, set_rep_idsim, set_worker_idsim.
   pose proof (clear_idsim _ _ H) as H0.
   rewrite (idsim_worker _ _ H0). destruct (worker (set_pend [] s)); auto using do_cleanup_idsim.
+Qed.
+
+Lemma init_body_idsim p r s t :
+  IdSimX X X' bs bt s t ->
+  IdSimX X X' bs bt (init_body p s r) (init_body p t r) /\ init_res p t r = init_res p s r.
+Proof.
+  intros H. unfold init_body, init_res. apply init_tail_idsim. apply init_pre_idsim_rel. exact H.
 Qed.
 
 Lemma do_init_idsim p r s t :
@@ -790,7 +798,7 @@ Lemma do_init_idsim p r s t :
   IdSimX X X' bs bt (fst (do_init p s r)) (fst (do_init p t r)) /\ snd (do_init p t r) = snd (do_init p s r).
 Proof.
   intros H. rewrite !do_init_eq, (idsim_running _ _ H).
-  destruct (running s); cbn [fst snd]; split; auto using init_body_idsim.
+  destruct (running s); cbn [fst snd]; [split; auto|]. apply init_body_idsim; auto.
 Qed.
 
 Lemma do_end_repl_idsim fuel p s t :
@@ -1045,26 +1053,26 @@ Proof.
 Qed.
 
 (* what initialize builds does not depend on the run / replication state it starts from *)
-Lemma init_body_rsps p r a b s : init_body p (set_ps a (set_rs b s)) r = init_body p s r.
+Lemma init_tail_rsps p r a b s2 : init_tail p r (set_ps a (set_rs b s2)) = init_tail p r s2.
 Proof.
-  unfold init_body. ssimpl.
-  set (s2 := set_created [] (set_clock (r_start r) (set_rep (Some r) (set_worker WAlive
-               (match worker s with WNone => set_pend [] s | _ => do_cleanup (set_pend [] s) end))))).
-  destruct (worker s) eqn:W.
-  - replace (set_created [] (set_clock (r_start r) (set_rep (Some r) (set_worker WAlive
-               (set_pend [] (set_ps a (set_rs b s)))))))
-      with (set_ps a (set_rs b s2)) by (unfold s2; destruct s; reflexivity).
-    rewrite exec_actions_construct_rsps.
-    destruct (exec_actions InConstruct s2 (body p 0)) as [s3 fl]. cbn [fst snd].
-    destruct fl.
-    + replace (raise_flag (set_ps a (set_rs b s3))) with (set_ps a (set_rs b (raise_flag s3))) by (destruct s3; reflexivity).
-      rewrite set_rsps_collapse. reflexivity.
-    + rewrite set_rsps_collapse. reflexivity.
-  - replace (do_cleanup (set_pend [] (set_ps a (set_rs b s)))) with (do_cleanup (set_pend [] s))
-      by (destruct s; reflexivity). reflexivity.
-  - replace (do_cleanup (set_pend [] (set_ps a (set_rs b s)))) with (do_cleanup (set_pend [] s))
-      by (destruct s; reflexivity). reflexivity.
+  unfold init_tail. rewrite exec_actions_construct_rsps.
+  destruct (exec_actions InConstruct s2 (body p 0)) as [s3 fl]. cbn [fst snd].
+  destruct fl; rewrite set_rsps_collapse; reflexivity.
 Qed.
+
+Lemma init_pre_rsps a b s r :
+  init_pre (set_ps a (set_rs b s)) r
+  = match worker s with WNone => set_ps a (set_rs b (init_pre s r)) | _ => init_pre s r end.
+Proof. unfold init_pre. ssimpl. destruct s as [ck pd ni r0 p0 bd ic sg wk rp cr cn tr ou nt ob fl]. destruct wk; reflexivity. Qed.
+
+Lemma init_both_rsps p r a b s : init_tail p r (init_pre (set_ps a (set_rs b s)) r) = init_tail p r (init_pre s r).
+Proof. rewrite init_pre_rsps. destruct (worker s); auto using init_tail_rsps. Qed.
+
+Lemma init_body_rsps p r a b s : init_body p (set_ps a (set_rs b s)) r = init_body p s r.
+Proof. unfold init_body. rewrite init_both_rsps. reflexivity. Qed.
+
+Lemma init_res_rsps p r a b s : init_res p (set_ps a (set_rs b s)) r = init_res p s r.
+Proof. unfold init_res. rewrite init_both_rsps. reflexivity. Qed.
 
 Lemma lapp_nil_l b : lapp no_logs b = b.
 Proof. destruct b; reflexivity. Qed.
@@ -1113,18 +1121,23 @@ Proof.
     + reflexivity.
 Qed.
 
-Lemma init_body_fresh_idsim p r s :
-  IdSim (logs_of s) no_logs (init_body p s r) (init_body p (init_sim (strat s)) r).
+Lemma init_fresh_both p r s :
+  IdSim (logs_of s) no_logs (init_body p s r) (init_body p (init_sim (strat s)) r)
+  /\ init_res p (init_sim (strat s)) r = init_res p s r.
 Proof.
-  rewrite <- (init_body_rsps p r PNotInit RNotInit s).
+  rewrite <- (init_body_rsps p r PNotInit RNotInit s), <- (init_res_rsps p r PNotInit RNotInit s).
   set (s' := set_ps PNotInit (set_rs RNotInit s)).
   replace (logs_of s) with (logs_of s') by reflexivity.
   replace (strat s) with (strat s') by reflexivity.
-  unfold init_body at 1 2.
-  apply init_tail_idsim.
+  unfold init_body, init_res.
+  apply init_tail_idsim. unfold init_pre.
   replace (worker (set_pend [] (init_sim (strat s')))) with WNone by reflexivity. cbv iota.
   apply (init_pre_idsim s' r); reflexivity.
 Qed.
+
+Lemma init_body_fresh_idsim p r s :
+  IdSim (logs_of s) no_logs (init_body p s r) (init_body p (init_sim (strat s)) r).
+Proof. apply init_fresh_both. Qed.
 
 (* THE ISOLATION THEOREM.  Take any state s that is not running -- whatever
    happened before: never started, stepped, paused, ended, paused by a fault,
@@ -1141,14 +1154,15 @@ Theorem reinit_fresh p r s fuel cs :
   let b := fst (do_init p (init_sim (strat s)) r) in
   let ra := run_cmds fuel p a cs in
   let rb := run_cmds fuel p b cs in
-  snd (do_init p s r) = ResOk
+  (snd (do_init p s r) = snd (do_init p (init_sim (strat s)) r) /\ snd (do_init p s r) <> ResRefused)
   /\ snd ra = snd rb
   /\ logs_of (fst ra) = lapp (logs_of (fst rb)) (logs_of s).
 Proof.
   intros R. cbv zeta. rewrite !do_init_eq, R.
   replace (running (init_sim (strat s))) with false by reflexivity. cbn [fst snd].
-  split; auto.
-  destruct (run_cmds_idsim _ _ _ _ fuel p cs _ _ (init_body_fresh_idsim p r s)) as [[_ [n [A B]]] E].
+  destruct (init_fresh_both p r s) as [H0 E0].
+  split; [split; [symmetry; exact E0|destruct (init_res_cases p s r) as [Q|Q]; rewrite Q; discriminate]|].
+  destruct (run_cmds_idsim _ _ _ _ fuel p cs _ _ H0) as [[_ [n [A B]]] E].
   split; [symmetry; exact E|].
   rewrite lapp_no_logs in B. rewrite B. exact A.
 Qed.
@@ -1179,16 +1193,20 @@ Lemma init_body_frame p s r :
            (match worker (set_pend [] s) with WNone => set_pend [] s | _ => do_cleanup (set_pend [] s) end))))
     /\ exec_actions InConstruct s2 (body p 0) = (s3, fl)
     /\ HStep s2 s3
+    /\ init_res p s r = (if fl then ResRaised else ResOk)
     /\ init_body p s r =
-       let s5 := set_ps PInit (set_rs RInit (if fl then raise_flag s3 else s3)) in
+       if fl then set_ps PNotInit (set_rs RNotInit s3)
+       else
+       let s5 := set_ps PInit (set_rs RInit s3) in
        if r_warm r <? clock s5 then raise_flag s5
        else set_nid (nid s5 + 1) (set_pend (ins (mkEv (r_warm r) 10 (nid s5) HWarm 0) (pend s5)) s5).
 Proof.
-  unfold init_body. cbv zeta.
+  unfold init_body, init_res, init_tail, init_pre. cbv zeta.
   set (s2 := set_created [] _).
   pose proof (exec_actions_hstep InConstruct (body p 0) s2) as HS.
   destruct (exec_actions InConstruct s2 (body p 0)) as [s3 fl] eqn:E. cbn [fst] in HS.
-  exists s2, s3, fl. split; [reflexivity|]. split; [exact E|]. split; [exact HS|]. reflexivity.
+  exists s2, s3, fl. split; [reflexivity|]. split; [exact E|]. split; [exact HS|].
+  destruct fl; split; reflexivity.
 Qed.
 
 (* clock at the replication start; nothing that existed before is pending;
@@ -1202,7 +1220,7 @@ Theorem reinit_clears_pending p s r :
   /\ (forall e, In e (live s) -> ~ In e (pend s')).
 Proof.
   intros HI R s'. unfold s'. rewrite do_init_eq, R. cbn [fst].
-  destruct (init_body_frame p s r) as (s2 & s3 & fl & E2 & E3 & HS & ->). cbv zeta.
+  destruct (init_body_frame p s r) as (s2 & s3 & fl & E2 & E3 & HS & _ & ->). cbv zeta.
   assert (N2 : nid s2 = nid s) by (rewrite E2; destruct (worker (set_pend [] s)); reflexivity).
   assert (P2 : pend s2 = []) by (rewrite E2; destruct (worker (set_pend [] s)); reflexivity).
   assert (C2 : created s2 = []) by (rewrite E2; reflexivity).
@@ -1215,10 +1233,6 @@ Proof.
     rewrite Forall_forall in Fl. specialize (Fl e He). lia. }
   assert (K3 : clock s3 = r_start r) by (rewrite (fr_clock _ _ F); exact K2).
   assert (N3 : nid s <= nid s3) by (pose proof (fr_nid _ _ F); lia).
-  set (s5 := set_ps PInit (set_rs RInit (if fl then raise_flag s3 else s3))).
-  assert (Q : clock s5 = r_start r /\ pend s5 = pend s3 /\ created s5 = created s3 /\ nid s5 = nid s3)
-    by (unfold s5; destruct fl; ssimpl; auto).
-  destruct Q as (Q1 & Q2 & Q3 & Q4).
   assert (G : forall x, clock x = r_start r -> (forall e, In e (pend x) -> nid s <= ev_id e) ->
                         (forall e, In e (created x) -> nid s <= ev_id e) ->
               clock x = r_start r /\ (forall e, In e (pend x) -> nid s <= ev_id e)
@@ -1227,6 +1241,11 @@ Proof.
   { intros x A B C. repeat split; auto. intros e He Hp. specialize (B e Hp).
     destruct HI as [_ _ H3 _ _ _]. rewrite Forall_forall in H3.
     assert (ev_id e < nid s) by (apply H3; unfold ids; apply in_map; exact He). lia. }
+  destruct fl; [apply G; ssimpl; auto|].
+  set (s5 := set_ps PInit (set_rs RInit s3)).
+  assert (Q : clock s5 = r_start r /\ pend s5 = pend s3 /\ created s5 = created s3 /\ nid s5 = nid s3)
+    by (unfold s5; ssimpl; auto).
+  destruct Q as (Q1 & Q2 & Q3 & Q4).
   destruct (r_warm r <? clock s5).
   - apply G; ssimpl; rewrite ?Q1, ?Q2, ?Q3; auto.
   - apply G; ssimpl; rewrite ?Q1, ?Q3; auto.
@@ -1272,10 +1291,12 @@ Qed.
 (* exactly one warm-up event is pending after initialize: at the warm-up time, with the highest priority *)
 Theorem exactly_one_warmup_scheduled p s r :
   running s = false -> r_start r <= r_warm r ->
-  exists n, nid s <= n /\ warmups (fst (do_init p s r)) = [mkEv (r_warm r) 10 n HWarm 0].
+  (snd (do_init p s r) = ResOk
+   /\ exists n, nid s <= n /\ warmups (fst (do_init p s r)) = [mkEv (r_warm r) 10 n HWarm 0])
+  \/ (snd (do_init p s r) = ResRaised /\ warmups (fst (do_init p s r)) = []).
 Proof.
-  intros R W. rewrite do_init_eq, R. cbn [fst].
-  destruct (init_body_frame p s r) as (s2 & s3 & fl & E2 & E3 & HS & ->). cbv zeta.
+  intros R W. rewrite do_init_eq, R. cbn [fst snd].
+  destruct (init_body_frame p s r) as (s2 & s3 & fl & E2 & E3 & HS & -> & ->). cbv zeta.
   assert (P2 : pend s2 = []) by (rewrite E2; destruct (worker (set_pend [] s)); reflexivity).
   assert (K2 : clock s2 = r_start r) by (rewrite E2; reflexivity).
   assert (N2 : nid s2 = nid s) by (rewrite E2; destruct (worker (set_pend [] s)); reflexivity).
@@ -1283,13 +1304,18 @@ Proof.
   { pose proof (exec_actions_nowarm InConstruct (body p 0) s2) as Q. rewrite E3 in Q. cbn [fst] in Q.
     apply Q. rewrite P2. intros x []. }
   destruct HS as [F _ _ _ _].
-  set (s5 := set_ps PInit (set_rs RInit (if fl then raise_flag s3 else s3))).
-  assert (Q : clock s5 = r_start r /\ pend s5 = pend s3 /\ nid s5 = nid s3)
-    by (unfold s5; destruct fl; ssimpl; rewrite (fr_clock _ _ F); auto).
-  destruct Q as (Q1 & Q2 & Q3).
-  destruct (Z.ltb_spec (r_warm r) (clock s5)); [lia|].
-  exists (nid s5). split; [pose proof (fr_nid _ _ F); lia|].
-  unfold warmups; ssimpl. rewrite filter_ins_none; [reflexivity|]. rewrite Q2. exact NW.
+  destruct fl.
+  - right. split; auto. unfold warmups; ssimpl.
+    clear -NW. induction (pend s3) as [|x l IH]; auto. cbn [filter].
+    rewrite (NW x (or_introl eq_refl)). apply IH. intros y Hy. apply NW. right; auto.
+  - left. split; auto.
+    set (s5 := set_ps PInit (set_rs RInit s3)).
+    assert (Q : clock s5 = r_start r /\ pend s5 = pend s3 /\ nid s5 = nid s3)
+      by (unfold s5; ssimpl; rewrite (fr_clock _ _ F); auto).
+    destruct Q as (Q1 & Q2 & Q3).
+    destruct (Z.ltb_spec (r_warm r) (clock s5)); [lia|].
+    exists (nid s5). split; [pose proof (fr_nid _ _ F); lia|].
+    unfold warmups; ssimpl. rewrite filter_ins_none; [reflexivity|]. rewrite Q2. exact NW.
 Qed.
 
 (* initialize while running: refused, nothing changes *)
@@ -1329,12 +1355,15 @@ Qed.
 (* with the repaired initialize a model whose construct_model registers
    each key once can be initialised from ANY state: never "already registered" *)
 Theorem x_init_never_already_registered xp x r :
-  NoDup (keys_of (xp_stats xp)) -> running (x_sim x) = false -> snd (x_init true xp x r) = XOk.
+  NoDup (keys_of (xp_stats xp)) -> running (x_sim x) = false ->
+  snd (x_init true xp x r) = (match snd (do_init (xp_prog xp) (x_sim x) r) with ResRaised => XRaised | _ => XOk end)
+  /\ snd (x_init true xp x r) <> XAlreadyRegistered /\ snd (x_init true xp x r) <> XRefused.
 Proof.
   intros ND R. unfold x_init. rewrite R.
   pose proof (build_stats_ok (length (obs (x_sim x))) (xp_stats xp)
                (mkMdl [] (map (cut_obj (length (obs (x_sim x)))) (m_objs (x_mdl x)))) ND (fun k _ => eq_refl)) as H.
-  destruct (build_stats _ _ _) as [m1 ok]. cbn [snd] in H. subst ok. reflexivity.
+  destruct (build_stats _ _ _) as [m1 ok]. cbn [snd] in H. subst ok. cbn [snd].
+  split; [reflexivity|]. destruct (snd (do_init (xp_prog xp) (x_sim x) r)); split; discriminate.
 Qed.
 
 Theorem x_init_refused_while_running clr xp x r :
